@@ -61,18 +61,19 @@ def timed (m : String) : Bool := m == "t" || m == "d"
 def bad (a : Acc) (msg : String) : Acc := { a with errs := a.errs ++ [s!"C07 call {a.idx} ({a.op}{a.n}{a.mode}): {msg}"] }
 
 /-- "A Reader call that needs n bytes returns successfully once n bytes are buffered; if the connection closes FIRST it
-returns ErrEOF / ErrConnClosed" – judged for a BLOCKED reader: the call received the data wake-up that the poller sent when
-its n bytes were buffered (`wokenBy ≥ n`), those bytes were buffered before the connection closed (`availAtClose ≥ n`) and
-are still there at the return (`len`), yet the call fails.  (For a reader that is RUNNING between its look at the length and
-its look at `closing` while the n-th byte and the close arrive the text is not decidable from the reader's observations;
-the unchanged code returns the close error there with Len() ≥ n – reported as a finding candidate, not judged here.) -/
-def wokenThenError (a : Acc) (err : String) (len : Nat) : Acc :=
-  match a.wokenBy, a.availAtClose with
-  | some w, some v =>
-      if w ≥ a.n && v ≥ a.n && len ≥ a.n then
-        bad a s!"{err} although the reader had been woken by the delivery of its bytes: {v} bytes were buffered before the close (Len() = {len} at the return)"
+returns ErrEOF / ErrConnClosed": the close did NOT come first when the n bytes were buffered before the connection closed
+(`availAtClose ≥ n`: buffered at the first close and not consumed since) and are still there at the return (`len`), yet the
+call fails with the close error.  REQUIRED of every call – a parked reader and a reader that is running between its look at
+the length and its look at `closing` alike (D20, fixed in /repo: the loops look at the length again once they have learnt
+of the close; before the fix the running reader returned ErrEOF with Len() ≥ n). -/
+def closedThenError (a : Acc) (err : String) (len : Nat) : Acc :=
+  match a.availAtClose with
+  | some v =>
+      if v ≥ a.n && len ≥ a.n then
+        bad a (s!"{err} although its {a.n} bytes were buffered before the connection closed: {v} bytes buffered at the close, Len() = {len} at the return"
+               ++ (match a.wokenBy with | some w => s!" (the reader had taken the data wake-up sent with {w} bytes buffered)" | none => ""))
       else a
-  | _, _ => a
+  | none => a
 
 def onEv (a : Acc) : Ev → Acc
   | .call idx op n mode _ =>
@@ -117,11 +118,11 @@ def onEv (a : Acc) : Ev → Acc
           if a.consumed > 0 then a := bad a "a failed call consumed data"
           -- "returns successfully once n bytes are buffered; if the connection closes FIRST it returns ErrEOF": the close
           -- did not come first when the n bytes were already buffered at the close (and are still there: `len` = Len() at the return)
-          a := wokenThenError a "ErrEOF" len
+          a := closedThenError a "ErrEOF" len
         else if res == "closed" then
           if !a.user then a := bad a "ErrConnClosed before any local close"
           if a.consumed > 0 then a := bad a "a failed call consumed data"
-          a := wokenThenError a "ErrConnClosed" len
+          a := closedThenError a "ErrConnClosed" len
         else
           a := bad a s!"unexpected result {res}"
       if tick != 0 then a := bad a "the timer channel is not empty after the call"
